@@ -475,4 +475,187 @@ theorem replaceAll_nil_sublist (re : Re) (s : Bytes) : (replaceAll re s []).Subl
   unfold replaceAll
   simpa using replaceAll_go_sublist s _ 0 (findAll_spans re s)
 
+/-! ## line patterns -/
+
+theorem decodeRune_noLF {s : Bytes} {r w : Nat} (h : decodeRune s = some (r, w)) (hr : r ≠ 10) :
+    ∀ b ∈ s.take w, b ≠ LF := by
+  have e : ∀ x : UInt8, LF = x → x.toNat = 10 := by intro x h; subst h; rfl
+  unfold decodeRune at h
+  split at h
+  · cases h
+  · rename_i b0 t
+    simp only at h
+    repeat' split at h
+    all_goals
+      simp only [Option.some.injEq, Prod.mk.injEq] at h
+      obtain ⟨rfl, rfl⟩ := h
+      intro b hb hLF
+      subst hLF
+      simp only [List.take_succ_cons, List.take_zero, List.mem_cons, List.not_mem_nil, or_false] at hb
+      try simp only [Bool.and_eq_true, decide_eq_true_eq] at *
+      first
+      | (have := e _ hb; omega)
+      | (rcases hb with hb | hb <;> have := e _ hb <;> omega)
+      | (rcases hb with hb | hb | hb <;> have := e _ hb <;> omega)
+      | (rcases hb with hb | hb | hb | hb <;> have := e _ hb <;> omega)
+
+theorem Pos.span_self (p : Pos) : p.span p = [] := by simp [Pos.span]
+
+theorem Pos.span_advance {p : Pos} {n : Nat} (h : n ≤ p.after.length) :
+    p.span (p.advance n) = p.after.take n := by
+  simp [Pos.span, Pos.advance_off _ _ h]
+
+theorem Pos.span_append {p : Pos} {n1 n2 : Nat} (h1 : n1 ≤ p.after.length)
+    (h2 : n2 ≤ (p.advance n1).after.length) :
+    p.span ((p.advance n1).advance n2) = p.span (p.advance n1) ++ (p.advance n1).span ((p.advance n1).advance n2) := by
+  rw [Pos.span_advance h2, Pos.span_advance h1, Pos.advance_advance _ _ _ h1, Pos.span_advance,
+    Pos.advance_after, List.take_add]
+  rw [Pos.advance_after, List.length_drop] at h2
+  omega
+
+theorem Matches.span_append {a b : Re} {p q r : Pos} (h1 : Matches a p q) (h2 : Matches b q r) :
+    p.span r = p.span q ++ q.span r := by
+  obtain ⟨n1, hn1, rfl⟩ := h1.advance
+  obtain ⟨n2, hn2, rfl⟩ := h2.advance
+  exact Pos.span_append hn1 hn2
+
+theorem inRanges_noLF {r : Nat} {rs : List (Nat × Nat)} (h : inRanges r rs = true)
+    (hn : inRanges 10 rs = false) : r ≠ 10 := by
+  intro h10; subst h10; rw [h] at hn; cases hn
+
+/-- A regex without `(?s).`, `\n` literals and classes containing `\n` never consumes a line feed. -/
+theorem Matches.noLF_span {re : Re} {p q : Pos} (h : Matches re p q) (hn : re.noLF = true) :
+    ∀ b ∈ p.span q, b ≠ LF := by
+  induction h with
+  | empty p | bol _ | eol _ | bot _ | eot _ | wordB _ | noWordB _ | starNil p | questNil p =>
+    simp [Pos.span_self]
+  | lit hd =>
+    rw [Pos.span_advance (decodeRune_width hd).2]
+    exact decodeRune_noLF hd (by simpa [Re.noLF] using hn)
+  | cls hd hr =>
+    rw [Pos.span_advance (decodeRune_width hd).2]
+    exact decodeRune_noLF hd (inRanges_noLF hr (by simpa [Re.noLF] using hn))
+  | anyNL hd => simp [Re.noLF] at hn
+  | anyNoNL hd hr =>
+    rw [Pos.span_advance (decodeRune_width hd).2]
+    exact decodeRune_noLF hd hr
+  | altL _ ih => simp only [Re.noLF, Bool.and_eq_true] at hn; exact ih hn.1
+  | altR _ ih => simp only [Re.noLF, Bool.and_eq_true] at hn; exact ih hn.2
+  | questSome _ ih | group _ ih => exact ih (by simpa [Re.noLF] using hn)
+  | cat h1 h2 ih1 ih2 =>
+    simp only [Re.noLF, Bool.and_eq_true] at hn
+    rw [h1.span_append h2]
+    intro b hb
+    rcases List.mem_append.mp hb with hb | hb
+    · exact ih1 hn.1 b hb
+    · exact ih2 hn.2 b hb
+  | starCons h1 h2 ih1 ih2 =>
+    rw [h1.span_append h2]
+    intro b hb
+    rcases List.mem_append.mp hb with hb | hb
+    · exact ih1 (by simpa [Re.noLF] using hn) b hb
+    · exact ih2 hn b hb
+  | plus h1 h2 ih1 ih2 =>
+    rw [h1.span_append h2]
+    intro b hb
+    rcases List.mem_append.mp hb with hb | hb
+    · exact ih1 (by simpa [Re.noLF] using hn) b hb
+    · exact ih2 (by simpa [Re.noLF] using hn) b hb
+
+/-- Relation level: a match of `(?m)^body$` whose body cannot consume a line feed is exactly one
+whole line: it starts at a line start, ends at a line end and contains no line feed. -/
+theorem Matches.line {body : Re} {p q : Pos} (h : Matches (.cat .bol (.cat body .eol)) p q)
+    (hn : body.noLF = true) : p.atBol = true ∧ q.atEol = true ∧ ∀ b ∈ p.span q, b ≠ LF := by
+  cases h with
+  | cat h1 h2 =>
+    cases h1 with
+    | bol hb =>
+      cases h2 with
+      | cat h3 h4 =>
+        cases h4 with
+        | eol he => exact ⟨hb, he, h3.noLF_span hn⟩
+
+/-- the text of a position pair of `s`, cut into before / between / after -/
+theorem Pos.Of.split {s : Bytes} {p : Pos} {n : Nat} (hp : p.Of s) (hn : n ≤ p.after.length) :
+    s = p.before.reverse ++ p.span (p.advance n) ++ (p.advance n).after := by
+  rw [Pos.span_advance hn, Pos.advance_after, List.append_assoc, List.take_append_drop]
+  exact hp.1.symm
+
+theorem splitLF_ne_nil' (b : Bytes) : splitLF b ≠ [] := by
+  cases b with
+  | nil => simp [splitLF]
+  | cons x t =>
+    simp only [splitLF]
+    split
+    · simp
+    · split <;> simp
+
+theorem splitLF_append_LF (x y : Bytes) : splitLF (x ++ LF :: y) = splitLF x ++ splitLF y := by
+  induction x with
+  | nil =>
+    simp only [List.nil_append, splitLF]
+    split
+    · rename_i h; exact absurd h (splitLF_ne_nil' y)
+    · rename_i l ls h; simp [h]
+  | cons b x ih =>
+    simp only [List.cons_append, splitLF, ih]
+    cases hx : splitLF x with
+    | nil => exact absurd hx (splitLF_ne_nil' x)
+    | cons l ls =>
+      simp only [List.cons_append]
+      split <;> simp
+
+theorem splitLF_noLF {l : Bytes} (h : ∀ b ∈ l, b ≠ LF) : splitLF l = [l] := by
+  induction l with
+  | nil => rfl
+  | cons b t ih =>
+    have hb : b ≠ LF := h b (by simp)
+    simp only [splitLF, ih (fun x hx => h x (by simp [hx]))]
+    simp [hb]
+
+/-- a piece of text delimited by line feeds / text ends and free of line feeds is one of the lines -/
+theorem mem_splitLF_of_delimited {pre line post : Bytes} (hl : ∀ b ∈ line, b ≠ LF)
+    (hpre : pre = [] ∨ ∃ pre', pre = pre' ++ [LF]) (hpost : post = [] ∨ ∃ post', post = LF :: post') :
+    line ∈ splitLF (pre ++ line ++ post) := by
+  have hmid : line ∈ splitLF (line ++ post) := by
+    rcases hpost with rfl | ⟨post', rfl⟩
+    · simp [splitLF_noLF hl]
+    · simp [splitLF_append_LF, splitLF_noLF hl]
+  rcases hpre with rfl | ⟨pre', rfl⟩
+  · simpa using hmid
+  · have : pre' ++ [LF] ++ line ++ post = pre' ++ LF :: (line ++ post) := by simp
+    rw [this, splitLF_append_LF]
+    exact List.mem_append_right _ hmid
+
+/-- **Line patterns are line-local.** If `find` reports a match `(a, e)` of `(?m)^body$` where
+`body` cannot consume a line feed, then `s[a:e]` is exactly one complete line of `s`. -/
+theorem find_line {body : Re} {s : Bytes} {a e : Nat} {c : Caps} (hn : body.noLF = true)
+    (h : find (.cat .bol (.cat body .eol)) s = some (a, e, c)) :
+    ∃ pre line post, s = pre ++ line ++ post ∧ a = pre.length ∧ e = pre.length + line.length ∧
+      (∀ b ∈ line, b ≠ LF) ∧ (pre = [] ∨ ∃ pre', pre = pre' ++ [LF]) ∧
+      (post = [] ∨ ∃ post', post = LF :: post') := by
+  obtain ⟨p, q, _, hp, _, ha, he, hM⟩ := find_sound h
+  obtain ⟨hbol, heol, hlf⟩ := hM.line hn
+  obtain ⟨n, hnl, rfl⟩ := hM.advance
+  refine ⟨p.before.reverse, p.span (p.advance n), (p.advance n).after, hp.split hnl, ?_, ?_, hlf, ?_, ?_⟩
+  · rw [← ha, hp.2]; simp
+  · rw [← he, Pos.advance_off _ _ hnl, hp.2, Pos.span_advance hnl]
+    simp [Nat.min_eq_left hnl]
+  · unfold Pos.atBol at hbol
+    split at hbol
+    · rename_i hb; left; simp [hb]
+    · rename_i b t hb
+      right
+      have : b = LF := by simpa using hbol
+      subst this
+      exact ⟨t.reverse, by simp [hb]⟩
+  · unfold Pos.atEol at heol
+    split at heol
+    · rename_i hb; left; exact hb
+    · rename_i b t hb
+      right
+      have : b = LF := by simpa using heol
+      subst this
+      exact ⟨t, hb⟩
+
 end Scrapli.Rx
